@@ -93,6 +93,44 @@ def _session_value_root(b, p, sess_path, depth=0):
     return None
 
 
+def n6_one_nonce_sequence_per_subkey(ctx, prog, bodies, rule="N6"):
+    """N6: a per-session subkey is determined by (key, salt); the nonce under it is a counter that starts at zero in whoever is built around
+    that subkey. Deriving the *same* subkey twice on one path of a stream codec's set-up (same derivation function, salt from the same value)
+    means two cipher states - two counters that both start at zero - seal or open under one key: the second one repeats the nonces the first
+    one used (header chunks and the first payload chunks share (key, nonce)). Branches that exclude each other (with / without identity
+    header) may each derive it once."""
+    sub = {b.defp for b in bodies if b.root == b.defp and ("Vec<u8>" in b.local_ty(0) or "[u8;" in b.local_ty(0)) and
+           any(c.target.startswith("blake3::derive_key") or (c.method == "expand" and "Hkdf" in (c.self_s or "")) for (_, c, _) in b.calls())}
+    ctx.floor(rule, "session-subkey derivation functions", 2, len(sub))
+    n = 0
+    for b in bodies:
+        if b.root != b.defp or not b.defp.startswith("octo_squirrel::codec::shadowsocks::tcp") or b.defp in sub:
+            continue
+        fb = prog.flat(b.defp)
+        sites = [(blk, c, t) for (blk, c, t) in fb.calls() if c.target in sub and len(t["args"]) >= 2]
+        if not sites:
+            continue
+        n += 1
+        bad = None
+        for i in range(len(sites)):
+            for j in range(i + 1, len(sites)):
+                (b1, c1, t1), (b2, c2, t2) = sites[i], sites[j]
+                if c1.target != c2.target or not (fb.can_reach(b1, b2) or fb.can_reach(b2, b1)):
+                    continue
+                p1, p2 = op_place(t1["args"][1]), op_place(t2["args"][1])
+                if p1 is None or p2 is None:
+                    continue
+                r1 = {l for l in fb.slice_back([p1[0]], stop_call=lambda c_: True)[0] if fb.locals[l].get("user") or 1 <= l <= fb.argc}
+                r2 = {l for l in fb.slice_back([p2[0]], stop_call=lambda c_: True)[0] if fb.locals[l].get("user") or 1 <= l <= fb.argc}
+                if r1 & r2:
+                    bad = (t1, t2, c1)
+        ctx.ob(rule, b.defp, "one-cipher-state-per-derived-subkey", loc(bad[1]["sp"]) if bad else loc(b.sp), bad is None,
+               "on every path the session subkey of a (key, salt) pair is derived for one cipher state only" if bad is None else
+               f"`{last_seg(bad[2].target)}` derives the subkey of one (key, salt) pair twice on one path ({loc(bad[0]['sp'])} and {loc(bad[1]['sp'])}): two cipher states with "
+               "their own nonce counters, both starting at zero, work under one key - what the second one seals or opens reuses the (key, nonce) pairs of the first")
+    ctx.floor(rule, "stream-codec functions that derive a session subkey", 2, n)
+
+
 def n5(ctx, prog, bodies):
     """N5: the per-session subkey binds the salt — the key material handed to blake3::derive_key is exactly `key || salt`.
     Accepted constructions: `[key, salt].concat()` (array of the two slices, the second one not a constant), or copies into a buffer
@@ -169,6 +207,7 @@ def run(ctx):
     prog = ctx.prog
     bodies = [b for b in prog.prod_bodies() if "::_" not in b.defp]
     n5(ctx, prog, bodies)
+    n6_one_nonce_sequence_per_subkey(ctx, prog, bodies)
     # ---------------- who-may-call -------------------------------------------------------------
     n_rng = 0
     for b in bodies:
